@@ -14,7 +14,7 @@ import (
 
 // C20 — ParseParameters is total and counts placeholders correctly.
 
-var c20Tokens = []string{"$1", "?", "x", " ", "$2", "$0", "$5", "$01", "$", "$65535", "$65536", "$99999999", "$9223372036854775808"}
+var c20Tokens = []string{"$1", "?", "x", " ", "$2", "$0", "$5", "$01", "$", "$65535", "$65536", "$99999999", "$9223372036854775808", "$18446744073709551623", "$340282366920938463463374607431768211461"}
 
 func init() {
 	explore.Register(&explore.Check{
@@ -23,7 +23,7 @@ func init() {
 		Technique: "exhaustive enumeration of all token concatenations up to a length bound, each run on the real ParseParameters (and through Parse+Describe on a live server) against an independent scanner",
 		Rule: "all concatenations of <= N tokens from " + fmt.Sprintf("%q", c20Tokens) + "; a case is non-trivial when it contains at least one marker; distinct = distinct query strings. " +
 			"Oracle: no panic, len <= 65535, bounded allocation, all OIDs 0, pure $n => highest index, pure ? => number of markers, Describe announces that length",
-		Assumptions: []string{"length for a highest index > 65535, for more than 65535 ? markers and for queries mixing $n with ? is not asserted (only totality and the 65535 bound)", "allocation bound per call: 8 MiB + 1 KiB per byte of query text (scanning is linear in the text; nothing may depend on the value of an index)"},
+		Assumptions: []string{"for a pure $n query with an index > 65535 the length is the highest in-range index or 65535 (ignored or saturating), nothing else; for more than 65535 ? markers and for queries mixing $n with ? it is not asserted (only totality and the 65535 bound)", "allocation bound per call: 8 MiB + 1 KiB per byte of query text (scanning is linear in the text; nothing may depend on the value of an index)"},
 		Enumerate:   c20Enumerate,
 		Bounds: func(tier string) map[string]any {
 			d, s := c20Depth(tier)
@@ -162,6 +162,12 @@ func c20Judge(res *explore.Result, q string) (n int, ok bool) {
 		}
 	}
 	switch res.Outcome {
+	case "beyond-limit":
+		// an index beyond the limit cannot be honoured; it is ignored or it saturates the list - it is never read as
+		// some other, smaller index (2^64+7 is not 7)
+		if positional > 0 && marks == 0 && len(out) != maxPos && len(out) != 65535 {
+			res.Fail("count", fmt.Sprintf("ParseParameters(%q): %d placeholders; the highest index within the limit is %d (indexes beyond 65535 are ignored or saturate the list at 65535, nothing else)", q, len(out), maxPos))
+		}
 	case "positional":
 		if len(out) != maxPos {
 			res.Fail("count", fmt.Sprintf("ParseParameters(%q): %d placeholders, highest positional index is %d", q, len(out), maxPos))
